@@ -28,6 +28,25 @@ def latin1 : Charmap :=
   { enc := fun r => if r.toNat < 0x100 then (r.toNat.toUInt8, true) else (0x1A, false)
     dec := fun x => Char.ofNat x.toNat }
 
+/-- a charmap sent as a table: `t` + replacement byte (2 hex) + for every byte its decoded code point (4 hex) and the byte
+    `EncodeRune` returns for that code point (2 hex) -/
+def charmapOfTok (t : String) : Option Charmap :=
+  match t.toList with
+  | 't' :: r1 :: r2 :: rest =>
+    let repl : UInt8 := (hexNib r1 * 16 + hexNib r2).toUInt8
+    let rec go : List Char → List (Nat × UInt8) → List (Nat × UInt8)
+      | a :: b :: c :: d :: e :: f :: more, acc =>
+        go more (((hexNib a * 16 + hexNib b) * 256 + hexNib c * 16 + hexNib d, (hexNib e * 16 + hexNib f).toUInt8) :: acc)
+      | _, acc => acc.reverse
+    let tbl := go rest []
+    if tbl.length != 256 then none else
+    some { enc := fun r => if r.toNat == 0xfffd then (repl, false) else   -- an undefined byte decodes to U+FFFD, which no charmap encodes
+                           match tbl.find? (fun p => p.1 == r.toNat) with
+                           | some p => (p.2, true)
+                           | none => (repl, false)
+           dec := fun x => Char.ofNat ((tbl.getD x.toNat (0xfffd, 0)).1) }
+  | _ => none
+
 /-- `strings.Trim(host, ".")` then collapse `\.\.+` to `.` -/
 def collapseDotsAux : Bool → Bytes → Bytes
   | _, [] => []
@@ -81,7 +100,7 @@ def cfgOfTok (t : String) : Cfg :=
       acceptInvalid := n.testBit 4, pctSingle := n.testBit 5, allowNonBasePath := n.testBit 6, skipDrive := n.testBit 7,
       skipTrailingSlash := n.testBit 8, skipEquals := n.testBit 9,
       preHost := hostFn pre.toNat!, postHost := hostFn post.toNat!,
-      encOverride := if enc == "1" then some latin1 else none,
+      encOverride := if enc == "1" then some latin1 else charmapOfTok enc,
       specialSchemes := schemesOfTok sch,
       pathSet := psetOfTok ps, spQuerySet := psetOfTok sq, querySet := psetOfTok q, spFragSet := psetOfTok sf, fragSet := psetOfTok f }
   | _ => {}
